@@ -169,7 +169,7 @@ def stmt(s, ind):
     if k == "class":
         out = f"{pad}{'export ' if s.get('export') else ''}class {s['n']} {{\n"
         for f in s["fields"]:
-            out += f"{pad}\t{f['n']}: {f['ty']}\n"
+            out += f"{pad}\t{'const ' if f.get('const') else ''}{f['n']}: {f['ty']}\n"
         for c in s["ctor"]:
             ps = ", ".join(["self"] + [p["n"] + ": " + p["ty"] for p in c["ps"]])
             out += f"{pad}\tconstructor({ps}) {{\n" + block(c["b"], ind + 2) + f"{pad}\t}}\n"
